@@ -233,20 +233,18 @@ func (c *Ctx) whoMayCall(rule, callee string, floor int, allowed map[string]stri
 		return
 	}
 	sites := p.CallSites(fn.Obj)
+	nSites := 0
 	for _, cs := range sites {
 		_, ok := allowed[cs.Caller.Name]
 		if !ok {
-			// an extracted block of an allowed caller (private helper with that sole call site) is part of it
-			for name := range allowed {
-				if af := p.Funcs[name]; af != nil && p.helperWithin(cs.Caller, af) {
-					ok = true
-				}
-			}
+			// a private helper (extracted block or new shared helper) all of whose callers are allowed
+			ok = p.ownersAllowed(cs.Caller, func(o *Func) bool { _, isAllowed := allowed[o.Name]; return isAllowed }, 0)
 		}
+		nSites += p.Multiplicity(cs.Caller)
 		c.Check(rule, "call "+callee+" from "+cs.Caller.Name, cs.Call, ok,
 			"%s may only be called from %v; called from %s", callee, keys(allowed), cs.Caller.Name)
 	}
-	c.Floor(rule, "call sites of "+callee, len(sites), floor)
+	c.Floor(rule, "call sites of "+callee, nSites, floor)
 	// function values (method values) escape the static index: forbid them
 	for _, f := range p.funcs {
 		if f.Decl.Body == nil {
@@ -301,11 +299,22 @@ func (c *Ctx) fieldWritersConfined(rule, field string, floor int, allowed func(f
 		return
 	}
 	ws := c.p.FieldWrites(f)
+	n := 0
 	for _, w := range ws {
 		ok, why := allowed(w)
+		if !ok {
+			// a write in a private helper counts as a write in the functions the helper is part of
+			ok = c.p.ownersAllowed(w.Fn, func(o *Func) bool {
+				w2 := w
+				w2.Fn = o
+				ok2, _ := allowed(w2)
+				return ok2
+			}, 0)
+		}
+		n += c.p.Multiplicity(w.Fn)
 		c.Check(rule, "write "+field+" ("+w.Kind+") in "+w.Fn.Name, w.Node, ok, "%s", why)
 	}
-	c.Floor(rule, "writes of "+field, len(ws), floor)
+	c.Floor(rule, "writes of "+field, n, floor)
 }
 
 // notReachable: target is not reachable from the roots in the call graph(s).
